@@ -151,6 +151,7 @@ func frame(round uint8, class uint8, body []byte) []byte {
 func runDisp(r *prng.R, s *out.Sink, tier string) {
 	defer dispSearch(r.Fork(), s, tier)
 	defer dispConcurrentEquivocation(s, tier)
+	defer dispCrossedAcks(s)
 	sessions := 150
 	if tier == "thorough" {
 		sessions = 3000
@@ -470,4 +471,91 @@ func dispConcurrentEquivocation(s *out.Sink, tier string) {
 		Q.close()
 	}
 	s.Distinct[fmt.Sprintf("concurrent equivocation %d trials", trials)] = struct{}{}
+}
+
+// dispCrossedAcks: two corrupted participants whose identifiers agree in their low byte (1 and 257) show crossed payloads
+// to the two honest ones (2 and 3) in one round: 1 sends A to 2 and B to 3, 257 sends B to 2 and A to 3. The honest
+// acknowledgements about 257 reach the other honest party before those about 1, followed by 257's own acknowledgement of
+// 1's payload. Acknowledgements are attributed to exactly the sender they name: nothing about 257 may count for 1.
+func dispCrossedAcks(s *out.Sink) {
+	for _, pair := range [][2]uint16{{1, 257}, {44, 300}, {0, 256}, {255, 65535}} {
+		x, y := pair[0], pair[1]
+		ids := []uint16{x, 2, 3, y}
+		membership := map[tss.UniversalID]tss.PartyID{}
+		for _, id := range ids {
+			membership[tss.UniversalID(id)] = tss.PartyID(id)
+		}
+		A, err := openDispSessionWith("keygen", 2, membership, ids, false)
+		if err != nil {
+			continue
+		}
+		B, err := openDispSessionWith("keygen", 3, membership, ids, false)
+		if err != nil {
+			A.close()
+			continue
+		}
+		s.N++
+		s.Count("crossed-acks/scenario")
+		s.Distinct[fmt.Sprintf("crossed acks %d %d", x, y)] = struct{}{}
+		mA, mB := frame(1, 1, []byte{0xA1}), frame(1, 1, []byte{0xB2})
+		give := func(ds *dispSession, src uint16, data []byte) {
+			safely(func() string {
+				ds.rg.scheme.HandleMessage(&tss.IncMessage{Data: data, Source: src, MsgType: uint8(tss.MsgTypeMPC), Topic: ds.topic})
+				return ""
+			})
+		}
+		acksOf := func(ds *dispSession) (aboutY, aboutX [][]byte) {
+			for _, m := range ds.rg.takeSent() {
+				if m.msgType != uint8(tss.MsgTypeMPC) || len(m.data) < 4 || m.data[0] >= 128 {
+					continue
+				}
+				switch uint16(m.data[1])<<8 | uint16(m.data[2]) {
+				case y:
+					aboutY = append(aboutY, m.data)
+				case x:
+					aboutX = append(aboutX, m.data)
+				}
+			}
+			return
+		}
+		A.rg.takeSent()
+		B.rg.takeSent()
+		give(A, x, mA)
+		give(B, x, mB)
+		give(A, y, mB)
+		give(B, y, mA)
+		ayA, axA := acksOf(A)
+		ayB, axB := acksOf(B)
+		digest := func(p []byte) string { return string(sha(p[1:])) }
+		for _, a := range ayB { // 3's acknowledgements about y reach 2 first ...
+			give(A, 3, a)
+		}
+		give(A, y, threshold.VerifNewRBCEncoding(digest(mA), x, 1)) // ... then y's own acknowledgement of x's payload A
+		for _, a := range ayA {
+			give(B, 2, a)
+		}
+		give(B, y, threshold.VerifNewRBCEncoding(digest(mB), x, 1))
+		for _, a := range axB {
+			give(A, 3, a)
+		}
+		for _, a := range axA {
+			give(B, 2, a)
+		}
+		fromX := func(ds *dispSession) []string {
+			var l []string
+			for _, e := range ds.backend.takeEvents() {
+				if e.kind == "onmsg" && e.from == x {
+					l = append(l, out.Hex(e.payload))
+				}
+			}
+			return l
+		}
+		ha, hb := fromX(A), fromX(B)
+		if len(ha) > 0 && len(hb) > 0 && ha[0] != hb[0] {
+			s.Violate("C02", fmt.Sprintf("two honest parties handed different payloads of sender %d, round 1 to their protocol instances (party 2: %v, party 3: %v): acknowledgements about participant %d were counted for participant %d", x, ha, hb, y, x),
+				fmt.Sprintf("participants %v; %d sends a1 to 2 and b2 to 3, %d sends b2 to 2 and a1 to 3 (round 1); each honest party then gets the other's acknowledgements about %d, %d's acknowledgement of %d's payload, and the acknowledgements about %d", ids, x, y, y, y, x, x))
+		}
+		A.close()
+		B.close()
+	}
 }
